@@ -10,7 +10,8 @@ META = {'assumptions': ['jsonutils.dumps / loads (Rules.__str__ / Rules.load) ar
 
 LEAVES = ['role:r0', 'role:r1', 'role:R2', 'rule:other', 'rule:n:x', "'v0':%(k0)s", 'True:%(k2)s', 'k3:%(k3)s',
           'user_id:%(user.id)s', 'http://h/%(k0)s', 'https://h:8/p', '@', '!', 'is_admin:True', "k:'lit'", 'a.b.c:x',
-          'project_id:%(project_id)s', 'x:y:z', 'x:', ':y', 'role:%%', 'r:(a', 'r:a)b']
+          'project_id:%(project_id)s', 'x:y:z', 'x:', ':y', 'role:%%', 'r:(a', 'r:a)b', '"Member":%(k0)s', 'k:"v"', 'a\\b:%(k0)s',
+          "'it''s':%(k0)s"]
 ROLESETS = [[], ['r0'], ['r1'], ['r0', 'r1', 'r2']]
 TARGET = {'k0': 'v0', 'k2': 'True', 'k3': 'tv', 'user.id': 'u', 'project_id': 'p'}
 
@@ -79,9 +80,14 @@ def _rule_sets(ctx, rep, enf, values):
         k = ctx.rng.randint(0, 6)
         rules = {'n%d' % i: ctx.rng.choice(values + ['', '@', []]) for i in range(k)}
         rs = policy.Rules.from_dict(rules, 'n0')
-        dumped = str(rs)
-        rs2 = policy.Rules.load(dumped, 'n0')
         key = 'c15set:%r' % (sorted(rules.items(), key=lambda kv: kv[0]),)
+        try:
+            dumped = str(rs)
+            rs2 = policy.Rules.load(dumped, 'n0')
+        except Exception as e:      # noqa
+            rep.fail(key, 'dumping the rule set %r and loading the dump fails: %s: %s' % (rules, type(e).__name__, str(e)[:120]),
+                     {'rules': rules})
+            continue
         if set(rs2) != set(rs):
             rep.fail(key, 'dump/load changes the names: %r -> %r' % (sorted(rs), sorted(rs2)), {'rules': rules})
             continue
